@@ -98,6 +98,11 @@ def native_contains_battery(model=None):
     md = MultiDiscrete((2, 3))
     cases += [(md, jnp.array([1, 2]), True), (md, jnp.array([0, 0]), True), (md, jnp.array([2, 0]), False), (md, jnp.array([-1, 2]), False), (md, jnp.array([0, -3]), False),
               (md, jnp.array([0.5, 1]), False), (md, jnp.array([nan, 1]), False), (md, jnp.array([1]), False), (md, None, False), (md, jnp.array([1.0, 2.0]), True)]
+    md1, mb1, b1, b0 = MultiDiscrete((5,)), MultiBinary(1), Box(0.0, 1.0, (1,)), Box(0.0, 1.0, ())
+    cases += [(md1, jnp.array(3), False), (md1, 3, False), (md1, np.int64(3), False), (md1, jnp.array([3]), True), (md1, jnp.array([[3]]), False), (md1, True, False), (md1, 3.0, False),
+              (mb1, jnp.array(1), False), (mb1, 1, False), (mb1, jnp.array([1]), True), (mb1, jnp.array([[1]]), False),
+              (b1, jnp.array(0.5), False), (b1, 0.5, False), (b1, jnp.array([0.5]), True), (b1, jnp.array([[0.5]]), False), (b0, jnp.array([0.5]), False), (b0, jnp.array(0.5), True),
+              (Tuple((md1, Discrete(2))), (jnp.array(3), jnp.array(1)), False), (Dict({"m": md1}), OrderedDict(m=jnp.array(3)), False)]
     dct = Dict({"a": Discrete(2), "b": Box(0.0, 1.0, (1,))})
     cases += [(dct, OrderedDict(a=jnp.array(1), b=jnp.array([0.5])), True), (dct, OrderedDict(a=jnp.array(2), b=jnp.array([0.5])), False), (dct, OrderedDict(a=jnp.array(1)), False),
               (dct, OrderedDict(a=jnp.array(1), b=jnp.array([0.5]), c=jnp.array(0)), False), (dct, (jnp.array(1), jnp.array([0.5])), False), (dct, None, False), (dct, "x", False),
@@ -152,8 +157,20 @@ def unit_contains(S):
             if tuple(x.shape) != (len(nvec),):
                 return z3.BoolVal(False)
             return z3.And(*[z3.And(integral(x.at((i,))), ir.zreal(x.at((i,))) >= 0, ir.zreal(x.at((i,))) < nvec[i]) for i in range(len(nvec))])
-        for xs, k in ((sd((len(nvec),), jnp.int32), "i"), (sd((len(nvec),), f32), "f")):
+        for xs, k in ((sd((len(nvec),), jnp.int32), "i"), (sd((len(nvec),), f32), "f"), (sd((), jnp.int32), "i[]-rank-too-low"), (sd((len(nvec), 1), jnp.int32), "i[n,1]-rank-too-high"),
+                      (sd((1, len(nvec)), jnp.int32), "i[1,n]-rank-too-high")):
             _contains_paths(S, lambda ctx, nvec=nvec: MultiDiscrete(nvec), xs, mdspec, f"MultiDiscrete{list(nvec)}/x:{k}", F.format("MultiDiscrete"), replay=_battery_replay)
+    # wrong RANK for one-element spaces: a 0-d value is not a member of a shape-(1,) space and vice versa (values of the right shape only)
+    _contains_paths(S, box_fn((1,)), sd((), f32), box_spec, "Box[1]/x:f[]-rank-too-low", F.format("Box"), replay=_battery_replay)
+    _contains_paths(S, box_fn(()), sd((1,), f32), box_spec, "Box[]/x:f[1]-rank-too-high", F.format("Box"), replay=_battery_replay)
+    _contains_paths(S, box_fn((1,)), sd((1, 1), f32), box_spec, "Box[1]/x:f[1,1]-rank-too-high", F.format("Box"), replay=_battery_replay)
+
+    def mb1spec(space, x):
+        if tuple(x.shape) != (1,):
+            return z3.BoolVal(False)
+        return z3.Or(ir.zreal(x.at((0,))) == 0, ir.zreal(x.at((0,))) == 1)
+    for xs, k in ((sd((), jnp.int32), "i[]-rank-too-low"), (sd((1,), jnp.int32), "i[1]"), (sd((1, 1), jnp.int32), "i[1,1]-rank-too-high")):
+        _contains_paths(S, lambda ctx: MultiBinary(1), xs, mb1spec, f"MultiBinary[1]/x:{k}", F.format("MultiBinary"), replay=_battery_replay)
     # containers: children's contains abstracted by their contracts (opaque), structure enumerated
     for kind in ("Dict", "Tuple"):
         ctx = Ctx()
